@@ -199,6 +199,19 @@ theorem runtime_agrees_kindstable_partial (a b : Ty) (ha : a.wf = true) (hb : b.
     isSubRuntime R n a b = isSub R n a b :=
   Verif.Proofs.SubTrans.runtime_struct a b ha hb hna hst n hn
 
+/-- **Known finding: type equality differs between the checker and the run-time representation** for
+    intersection types with a redundant member: `sema.IntersectionType.Equal` compares effective
+    intersection sets, `IntersectionStaticType.Equal` the listed members, so with `RJ: RI` the types `{RJ}`
+    and `{RI, RJ}` are equal for the checker and different at run time.  The subtype relations are not
+    affected: both directions hold in every implementation and in the model. -/
+theorem equal_intersection_witness :
+    let ri : Iface := { name := "RI", kind := .resource, confs := [] }
+    let rj : Iface := { name := "RJ", kind := .resource, confs := ["RI"] }
+    let a : Ty := .inter [rj]
+    let b : Ty := .inter [ri, rj]
+    semaEq a b = true ∧ (a == b) = false ∧ subtypeWith R a b = true ∧ subtypeWith R b a = true := by
+  decide
+
 /-- **Known finding, contravariant form**: the same failure with the container of `Never` in a function
     parameter of the *super-most* type: `fun(&AnyResource) <: fun(&[AnyResource]) <: fun(&[Never])` but not
     `fun(&AnyResource) <: fun(&[Never])`. -/
